@@ -178,6 +178,61 @@ let run_uf (ops : ostring list) : ostring =
   end) ops;
   Buffer.contents b
 
+(* ---------- file layer: Lib/FileModel.v with the real zlib ---------- *)
+external vb_deflate : int -> ostring -> ostring = "vb_deflate"
+external vb_inflate : ostring -> int -> int * ostring = "vb_inflate"
+let ostring_of_bytes (l : z list) : ostring =
+  let b = Buffer.create (List.length l) in List.iter (fun z -> Buffer.add_char b (Char.chr ((int_of_z z) land 255))) l; Buffer.contents b
+let bytes_of_ostring (s : ostring) : z list =
+  let rec go i acc = if i < 0 then acc else go (i - 1) (z_of_int (Char.code s.[i]) :: acc) in go (String.length s - 1) []
+let m_deflate (level : z) (l : z list) : z list = bytes_of_ostring (vb_deflate (int_of_z level) (ostring_of_bytes l))
+let m_inflate (l : z list) (expected : z) : z list option =
+  let e = int_of_z expected in
+  let (rc, out) = vb_inflate (ostring_of_bytes l) e in
+  if rc = 0 && String.length out = e then Some (bytes_of_ostring out) else None
+let stage_name = function EndClean -> "clean" | EndException -> "exception" | EndForeign -> "foreign" | EndUnsafe -> "unsafe" | EndFuel -> "fuel"
+let split_on_bar (s : ostring) = String.split_on_char '|' s
+let words (s : ostring) = List.filter (fun w -> w <> "") (String.split_on_char ' ' (String.trim s))
+let type115 = z_of_int 115
+type 'a r2 = Good of 'a | Bad of err
+let run_fw (line : ostring) : ostring =
+  match split_on_bar line with
+  | [] -> "? bad case"
+  | head :: objs ->
+    (match words head with
+     | _ :: level :: csz :: restore :: rest ->
+        let hdr0 = fresh cs c_stats in
+        let hdr = (match rest with "H" :: sets -> apply_sets (int_of_z c_stats) hdr0 sets | _ -> hdr0) in
+        let cfg = { w_level = z_of_string level; w_cs = z_of_string csz; w_restore = (restore <> "0") } in
+        let encs = List.fold_left (fun acc o ->
+          match acc with Bad e -> Bad e | Good l ->
+            (match words o with
+             | [] -> Good l
+             | c :: sets ->
+                 let c = int_of_string c in
+                 let s = apply_sets c (fresh cs (z_of_int c)) sets in
+                 (match enc cs cap (z_of_int c) s with
+                  | Model.Ok (s', bytes) ->
+                      let counted = (match s' fid_objectType with VInt t -> not (Z.eqb t type115) | _ -> true) in
+                      Good ((bytes, counted) :: l)
+                  | Model.Err e -> Bad e))) (Good []) objs in
+        (match encs with
+         | Bad e -> "FW err " ^ err_name e
+         | Good l ->
+             let l = List.rev l in
+             (match f_write_session m_deflate cfg hdr l with
+              | Model.Ok bytes -> "FW ok " ^ hex_of_bytes bytes
+              | Model.Err e -> "FW err " ^ err_name e))
+     | _ -> "? bad case")
+let run_fr (hex : ostring) : ostring =
+  let r = f_read_session m_inflate (bytes_of_hex hex) in
+  if r.r_open_throws then "FR throws" else
+  let b = Buffer.create 1000 in
+  Buffer.add_string b ("FR ok n=" ^ string_of_int (List.length r.r_objs) ^ " cend=" ^ stage_name r.r_cend ^ " oend=" ^ stage_name r.r_oend ^
+    " count=" ^ string_of_z r.r_count ^ " usize=" ^ string_of_z r.r_usize ^ " stats |" ^ dump (int_of_z c_stats) r.r_stats);
+  List.iter (fun (c, o) -> Buffer.add_string b (" || " ^ string_of_z c ^ " |" ^ dump (int_of_z c) o)) r.r_objs;
+  Buffer.contents b
+
 let process line =
   match String.split_on_char ' ' (String.trim line) with
   | "F" :: c :: _ ->
@@ -235,6 +290,8 @@ let process line =
         string_of_z c ^ ":rt=" ^ b01 (rt_ok c) ^ ":rtx=" ^ b01 (List.exists (fun x -> Z.eqb x c) rt_exceptions)) object_classes)
   | "Q" :: ops -> run_queue ops
   | "U" :: ops -> run_uf ops
+  | "FW" :: _ -> run_fw line
+  | "FR" :: hex :: _ -> run_fr (if hex = "-" then "" else hex)
   | [""] | [] -> ""
   | _ -> "? bad case"
 
